@@ -843,6 +843,32 @@ func flReader(c *Ctx, a *flAgg) {
 					n++
 				}
 				att = n
+				// when the attempts are used up, fill records an error before it
+				// returns: otherwise readSlice, finding no newline, no error and
+				// room in the buffer, calls fill again - for ever
+				for _, ex := range l.Header.Succs {
+					if l.Body[ex] {
+						continue
+					}
+					seg := &SPE{Fn: fill, Start: ex, MaxVisits: 2}
+					seg.Explore()
+					for _, p := range seg.Paths {
+						if p.Term != "return" {
+							continue
+						}
+						stored := false
+						for _, ev := range p.Events {
+							if ev.Kind == EvStore && strings.HasSuffix(ev.Addr.String(), ".err") && !ev.Val.isNilConst() {
+								stored = true
+							}
+						}
+						if stored {
+							a.ok("FL-fill-retry", "fill/gives-up-with-error", "when the attempts are used up fill records an error (io.ErrNoProgress)", pathPos(p, fill))
+						} else {
+							a.bad("FL-fill-retry", "fill/gives-up-with-error", "when the attempts are used up fill returns without recording an error: readSlice calls it again at once and a reader that keeps returning (0, nil) is polled for ever", pathPos(p, fill))
+						}
+					}
+				}
 			}
 		}
 		switch {
